@@ -387,7 +387,7 @@ func runCheck(id, tier, only string, workers int, verbose bool) int {
 		if !j.h.NoReplay && len(rep.Samples) > 0 {
 			var recs []string
 			for si, s := range rep.Samples {
-				rec := map[string]interface{}{"harness": j.h.Func, "pkg": j.h.Pkg, "func": j.h.Func, "params": j.params, "model": s.Model, "order": s.Order, "kind": "sample"}
+				rec := map[string]interface{}{"harness": j.h.Func, "pkg": j.h.Pkg, "func": j.h.Func, "params": j.params, "model": s.Model, "order": s.Order, "kind": "sample", "notes": s.Notes}
 				recPath := filepath.Join(scratch, fmt.Sprintf("%s-%s-%d-s%d.json", id, j.h.Func, ji, si))
 				b, _ := json.Marshal(rec)
 				os.WriteFile(recPath, b, 0o644)
